@@ -275,7 +275,7 @@ FrameMatches(fr, buf, r) == /\ fr.end > 0 /\ r.consumed = fr.end /\ r.consumed <
                             /\ r.v \in {"msg", "filtered"} => r.n = fr.n                \* reported payload length = the distance
 FrameOk(buf, sh, api, r) ==      \* r: [v, consumed, n]
   IF r.v \notin {"msg", "filtered", "skipped", "invalid"} THEN TRUE          \* the property speaks about successful calls only
-  ELSE IF sh /\ api = "parse" THEN \E k \in Occurrences(buf) : FrameMatches(FrameAtOcc(buf, k), buf, r)
+  ELSE IF sh THEN \E k \in Occurrences(buf) : FrameMatches(FrameAtOcc(buf, k), buf, r)     \* parser and skipper alike ("after any bytes skipped in front of the pattern")
   ELSE FrameMatches(FrameOf(buf, sh, api), buf, r)
 
 \* ---------------------------------------------------------------- construct_arguments (C13)
